@@ -4,7 +4,11 @@ Stores a confirmed seeded change under /verif/seeded/<id>/ with a patch that app
 import subprocess, sys, os, json, shutil
 sid, prop, diff, demo, needs, caught = sys.argv[1:7]
 note = sys.argv[7] if len(sys.argv) > 7 else ""
-def sh(c): return subprocess.run(c, shell=True, stdout=subprocess.PIPE, stderr=subprocess.STDOUT, text=True)
+def sh(c):
+    # ISO=<dir>: use the scratch worktree of tools/iso_setup.sh instead of /repo itself
+    if os.environ.get("ISO"):
+        c = c.replace("/repo", os.environ["ISO"] + "/repo")
+    return subprocess.run(c, shell=True, stdout=subprocess.PIPE, stderr=subprocess.STDOUT, text=True)
 assert not sh("git -C /repo status --porcelain --untracked-files=no").stdout.strip(), "repo not clean"
 r = sh("git -C /repo apply -3 %s" % diff)
 if r.returncode != 0:
